@@ -88,6 +88,10 @@ Section Rename.
   Lemma lower_align_rename k din dout : lower_align k (map (prename f) din) (map (prename f) dout) = lower_align k din dout.
   Proof. unfold lower_align. now rewrite perm_align_rename, bshape_rename, psizes_rename, llens_rename. Qed.
 
+  Theorem lower_broadcast_rename k din dout :
+    lower_broadcast k (map (prename f) din) (map (prename f) dout) = lower_broadcast k din dout.
+  Proof. unfold lower_broadcast. now rewrite lower_align_rename, psizes_rename, llens_rename. Qed.
+
   Theorem lower_elementwise_rename fn ins dout :
     lower_elementwise fn (map (map (prename f)) ins) (map (prename f) dout) = lower_elementwise fn ins dout.
   Proof.
